@@ -83,8 +83,16 @@ def functions_under(doc, cpath):
 
 def containers(doc):
     res = [None]
+    seen_classes = set()
     for path, node, _ in meta.walk_decls(doc):
-        if meta.decl_kind(node) in ("class", "namespace", "block"):
+        if meta.decl_kind(node) == "class":
+            cname = decl_name(node["decl"])
+            if cname in seen_classes:
+                # struct.rst "Forward Declaration": format and options must be given on the initial decl of a
+                # class; the later decl that adds the declarations is not a place to set them
+                continue
+            seen_classes.add(cname)
+        if meta.decl_kind(node) in ("class", "namespace", "block", "template"):      # ("template": a class template)
             if functions_under(doc, path):
                 res.append(path)
     return res
@@ -426,6 +434,14 @@ def run(ctx):
                 if key in ("F_CFI", "F_create_bufferify_function", "F_string_len_trim"):
                     jobs.append(dict(kind="a2", name=name, yaml=text, argv=[], what="option", key=key, value=value,
                                      f=list(sfun[0])))
+        # systematic part of a1: settings on a class template vs on each of its members (the members are cloned
+        # for every instantiation)
+        for cpath, node, _l in meta.walk_decls(doc0):
+            if meta.decl_kind(node) == "template" and functions_under(doc0, cpath):
+                for what, key, value in (("option", "F_force_wrapper", True), ("option", "C_force_wrapper", True),
+                                         ("option", "F_string_len_trim", False), ("format", "C_result", "rvx")):
+                    jobs.append(dict(kind="a1", name=name, yaml=text, argv=[], what=what, key=key, value=value,
+                                     container=list(cpath)))
         jobs.append(dict(kind="b", name=name, model=with_name_attrs(m)))
         # c
         for opts_lang in smallgen.sample(st.tuples(st.lists(st.sampled_from(CLI_OPTIONS), min_size=1, max_size=3,
